@@ -63,3 +63,15 @@ TABLE.update({
          "level": "Exploration with exhaustive histories: all sequences up to length 3 (plain; length 2 for the other dataset kinds in quick) over a 16-request menu on four dataset kinds (plain, obs-range, climatology, PIT), random histories of length 4-30, and byte comparison of repeated commands in separate processes with different PYTHONHASHSEED.",
          "note": TB, "design": "DESIGN.md 4/C18"},
 })
+
+TABLE.update({
+ "C08": {"technique": "runtime monitoring: textbook probabilistic-score oracle on generated cdf/quantile/ensemble/PIT datasets; Brier decomposition and complement-event identities as trace invariants",
+         "level": "Exploration: generated inputs with probabilities at 0/1/bin edges, constant obs, ensembles of 1-9 members with missing members, thresholds stored in all/some/none of the inputs; Brier family, ignorance, spherical, marginal ratio, quantile score/coverage/spread/spread-skill, PIT statistics through Metric.compute and csv; ensemble-quantile range/monotonicity laws.",
+         "note": TB + "; float32 tolerance for ensemble-derived probabilities", "design": "DESIGN.md 4/C08"},
+ "C17": {"technique": "runtime monitoring: option -> probe table evaluated on the produced matplotlib figure and on the saved file (magic bytes, pixel size)",
+         "level": "Exploration: each of ~47 appearance options alone on every applicable figure kind (standard, location axis, map, pithist, igncontrib, against), all pairs of related options, random compatible subsets of 2-7 options; six image formats by extension.",
+         "note": TB + "; figures inspected through matplotlib's object model, not pixels", "design": "DESIGN.md 4/C17"},
+ "C20": {"technique": "runtime monitoring: scripts run as real subprocesses; NetCDF outputs read back with netCDF4 and compared with a pure-Python reference of the documented transformation",
+         "level": "Exploration: accumulate (all window classes, -i, both axes, cumulative, one >=50x60x30 input per run to reach SciPy's FFT path), ens2prob (cdf/quantile invariants, PIT), expandverif (valid-time matching) on generated text and NetCDF inputs; dimensions and location metadata preserved.",
+         "note": TB, "design": "DESIGN.md 4/C20"},
+})
